@@ -46,8 +46,8 @@ MCFieldSet(c) ==
   IF NVariants(c) = 0 THEN {}
   ELSE LET lv == Last(c.variants) IN
     IF EarlierRich(c)
-    THEN IF Len(lv.fields) < 1 THEN PlainFields ELSE {}
-    ELSE IF Len(lv.fields) < (IF c.kind = "struct" THEN RichFields ELSE EnumRichFields) THEN FullFields(c.kind) ELSE {}
+    THEN IF Len(lv.fields) < 1 THEN WithRef(c, PlainFields) ELSE {}
+    ELSE IF Len(lv.fields) < (IF c.kind = "struct" THEN RichFields ELSE EnumRichFields) THEN WithRef(c, FullFields(c.kind)) ELSE {}
 
 \* only configurations the macro must accept are sealed here (rank clashes
 \* among compared fields are C13's business)
@@ -138,4 +138,7 @@ Laws ==
             (C(a, b) = "Less" /\ C(b, d) = "Less") => C(a, d) = "Less"
        /\ \A a \in V : \A b \in V : \A d \in V :
             (C(a, b) = "Equal" /\ C(b, d) = "Equal") => C(a, d) = "Equal"
+\* corpus-only exploration (used where only the configurations are wanted, not the run machine): states in which a
+\* run has begun are not expanded
+CorpusOnly == run = NoRun
 =============================================================================
